@@ -166,7 +166,48 @@ class Rejects(Family):
                 ('no-output-when-rejected', b_implies(bad, forall(fsame(v, 0.0) for v in O['out'])))]
 
 
+def wrapper_defaults(tier):
+    """armodels.armodel_sim / armodel_residual hand the kernels the same (mean, initial value) for the same arguments: an explicit
+    sim_ini (zero included) is passed as given, None means the mean; parameters and series are passed as float64 copies; outputs zeroed"""
+    import numpy as np
+    from hydrodiy.stat import armodels as A
+    from engine.contracts import Recorder, patched_module
+    out = []
+    x = np.array([0.5, -1.0, np.nan, 2.0])
+    for mean in (0.0, 2.0, -3.5):
+        for ini in (None, 0.0, -0.0, 1.5, 2.0):
+            for params in (0.9, [0.5, -0.2]):
+                rec = Recorder()
+                with patched_module(A, 'c_hydrodiy_stat', rec):
+                    A.armodel_sim(params, x, sim_mean=mean, sim_ini=ini)
+                    A.armodel_residual(params, x, sim_mean=mean, sim_ini=ini)
+                cs, cr = rec.calls[0], rec.calls[1]
+                want_ini = mean if ini is None else ini
+                tag = dict(sim_mean=mean, sim_ini=ini, params=params)
+                out.append(('sim:mean-and-initial-value', float(cs.args[0]) == mean and float(cs.args[1]) == want_ini, dict(tag, got=[float(cs.args[0]), float(cs.args[1])])))
+                out.append(('residual:mean-and-initial-value', float(cr.args[0]) == mean and float(cr.args[1]) == want_ini, dict(tag, got=[float(cr.args[0]), float(cr.args[1])])))
+                out.append(('params-as-1d-float64', all(c.args[2].dtype == np.float64 and c.args[2].ndim == 1 and np.array_equal(c.args[2], np.atleast_1d(params)) for c in (cs, cr)), tag))
+                out.append(('series-passed-unchanged', all(np.array_equal(c.args[3], x, equal_nan=True) for c in (cs, cr)), tag))
+                out.append(('series-buffer-not-callers-array', all(not np.shares_memory(c.raw_args[4], x) for c in (cs, cr)), tag))
+                out.append(('outputs-zeroed', all(np.all(c.args[4] == 0) and c.args[4].shape == x.shape for c in (cs, cr)), tag))
+    # default mean of the residual = nan-mean of the inputs
+    rec = Recorder()
+    with patched_module(A, 'c_hydrodiy_stat', rec):
+        A.armodel_residual(0.5, x)
+    out.append(('residual:default-mean=nanmean', abs(float(rec.calls[0].args[0]) - 0.5) < 1e-12 and abs(float(rec.calls[0].args[1]) - 0.5) < 1e-12, {}))
+    return out
+
+
+CONTRACTS = [wrapper_defaults]
+
+
+def contracts_part(tier, seed, workdir):
+    from engine.contracts import run_contracts
+    return run_contracts('C17', 'harness.C17', CONTRACTS, tier)
+
+
 FAMILIES = [Sim(), ResidualOfSim(), SimOfResidual(), Rejects()]
+PARTS = [contracts_part]
 
 META = dict(
     explanation='bounded symbolic execution of the LLVM IR of c_armodel_sim / c_armodel_residual and of their two compositions with symbolic '
